@@ -35,6 +35,7 @@ def _shards(tier):
         {"fn": "double_enc", "consts": {}, "timeout": 300},
         {"fn": "float_enc", "consts": {}, "timeout": 300},
         {"fn": "nan_spot", "consts": {}, "timeout": 120, "cover": False},
+        {"fn": "zero_spot", "consts": {}, "timeout": 120, "cover": False},
         {"fn": "seq_lemma", "consts": {"n": n}, "timeout": 900},
         {"fn": "set_lemma", "consts": {"n": n}, "timeout": 900},
         {"fn": "map_lemma", "consts": {"n": n}, "timeout": 900},
